@@ -1106,3 +1106,12 @@ V('c06-complete-phase-reuses-first-snapshot', 'C06', 'C06.SNAPSHOT', RMF,
 V('c06-twin-snapshot-in-a-local', 'C06', 'C06.SNAPSHOT', RMF,
   "        for listener in self.listeners.copy():\n            listener.async_update_records_complete()",
   "        listeners = self.listeners.copy()\n        for listener in listeners:\n            listener.async_update_records_complete()", expect='silent')
+
+# ---------------------------------------------------------------- round 10: memo kept across re-registration; goodbyes under a deadline
+INFOF = '_services/info.py'
+_CLR_OLD = "        self._dns_address_cache = None\n        self._dns_pointer_cache = None\n        self._dns_service_cache = None\n        self._dns_text_cache = None\n        self._get_address_and_nsec_records_cache = None\n"
+_CLR_NEW = "        self._dns_pointer_cache = None\n        self._dns_service_cache = None\n        self._dns_text_cache = None\n        if not self._dns_address_cache or self._dns_address_cache[0].ttl != self.host_ttl:\n            self._dns_address_cache = None\n            self._get_address_and_nsec_records_cache = None\n"
+V('c08-address-memo-survives-clear', 'C08', 'C08.PURGE', INFOF, _CLR_OLD, _CLR_NEW, names=['async_clear_cache'])
+V('c03-address-memo-survives-clear', 'C03', 'C03.MEMO', INFOF, _CLR_OLD, _CLR_NEW, names=['async_clear_cache'])
+V('c08-goodbyes-under-deadline', 'C08', 'C08.COMPLETE', 'asyncio.py', "        await self.async_unregister_all_services()",
+  "        with contextlib.suppress(asyncio.TimeoutError):\n            await asyncio.wait_for(self.async_unregister_all_services(), timeout=0.375)", names=['async_close'])
